@@ -88,7 +88,32 @@ func genCase(t *rapid.T) Case {
 		Chunked:  rapid.IntRange(0, 3).Draw(t, "chunked") == 0,
 	}
 	var hs [][2]string
+	// a quarter of the cases are sparse: only one or two blocked names occur at all, each with a
+	// drawn pattern of empty and non-empty lines (so that e.g. the only credential header in the
+	// request has an empty first line)
+	sparse := rapid.IntRange(0, 3).Draw(t, "sparse") == 0
+	if sparse {
+		var all []string
+		all = append(all, sensitive...)
+		for name := range hopValues {
+			if name != "Connection" && name != "TE" && name != "Trailer" {
+				all = append(all, name)
+			}
+		}
+		sort.Strings(all)
+		k := rapid.IntRange(1, 2).Draw(t, "nsparse")
+		for i := 0; i < k; i++ {
+			name := rapid.SampledFrom(all).Draw(t, "sparsename")
+			pat := rapid.SampledFrom([][]string{{""}, {"", "Bearer secret-2"}, {"", "", "Bearer secret-3"}, {"Bearer secret-1", ""}, {"Bearer secret-1"}}).Draw(t, "pattern")
+			for _, v := range pat {
+				hs = append(hs, [2]string{caseVariant(t, name), v})
+			}
+		}
+	}
 	for _, s := range sensitive {
+		if sparse {
+			break
+		}
 		n := rapid.SampledFrom([]int{0, 1, 1, 2, 3}).Draw(t, "nsens")
 		for i := 0; i < n; i++ {
 			v := "Bearer secret-" + s
@@ -98,7 +123,16 @@ func genCase(t *rapid.T) Case {
 			hs = append(hs, [2]string{caseVariant(t, s), v})
 		}
 	}
-	for name, vals := range hopValues {
+	hopNames := make([]string, 0, len(hopValues))
+	for name := range hopValues {
+		hopNames = append(hopNames, name)
+	}
+	sort.Strings(hopNames)
+	for _, name := range hopNames {
+		vals := hopValues[name]
+		if sparse {
+			break
+		}
 		n := rapid.SampledFrom([]int{0, 0, 1, 1, 2}).Draw(t, "nhop-"+name)
 		for i := 0; i < n; i++ {
 			hs = append(hs, [2]string{caseVariant(t, name), rapid.SampledFrom(vals).Draw(t, "hopv")})
@@ -407,7 +441,7 @@ func spellings(hs [][2]string, name string) []string {
 
 func TestC15(t *testing.T) {
 	defer rig.StopAll()
-	rec.SetRule("header blocks written verbatim by a raw TCP client: every sensitive and hop-by-hop name in generated letter-case variants with 0..3 occurrences and empty values, 0..40 arbitrary RFC 7230 token-named headers (repeated names, obs-text and tab in values), optional pre-existing Via / X-Forwarded-* / X-Real-IP on one or several lines; x route (proxy, provider, Anthropic passthrough, Anthropic translated) x engine x failover from a refusing first endpoint; the raw backend's received header block is compared. non-trivial = >=1 sensitive header in non-canonical case and >=5 arbitrary headers; distinct by sorted (name, count) skeleton")
+	rec.SetRule("header blocks written verbatim by a raw TCP client: every sensitive and hop-by-hop name in generated letter-case variants with 0..3 occurrences and empty values (a quarter of the cases sparse: only one or two blocked names present, with drawn patterns of empty and non-empty lines), 0..40 arbitrary RFC 7230 token-named headers (repeated names, obs-text and tab in values), optional pre-existing Via / X-Forwarded-* / X-Real-IP on one or several lines; x route (proxy, provider, Anthropic passthrough, Anthropic translated) x engine x failover from a refusing first endpoint; the raw backend's received header block is compared. non-trivial = >=1 sensitive header in non-canonical case and >=5 arbitrary headers; distinct by sorted (name, count) skeleton")
 	rec.Assume("headers nominated by the client's Connection value (RFC 7230 §6.1) are not asserted; header names are compared case-insensitively; for X-Forwarded-For/Via only preservation of the existing elements (as a prefix) and the presence of an added element are asserted, not what is added")
 	if ev.Replay(t, rec, "headers", runCase) {
 		return
